@@ -38,6 +38,7 @@ int vp_param(int k) { load(); return k < (int)g_par.size() ? g_par[k] : 0; }
 int vp_concretize(int x) { return x; }
 int vp_symbolic_run(void) { return 0; }
 void vp_sched_budget(int) {}
+void vp_sched_fair(int) {}
 // guarded schedule hooks of the library (-DASL_VERIF): VP_DELAY="name=milliseconds,..." holds a thread at a named point
 void asl_verif_sched_point(const char* name)
 {
